@@ -280,6 +280,12 @@ def run(ctx):
         ctx.log("warning: D12 is listed open but no D12-class case was accepted in this run")
     if not (0.15 <= acc <= 0.9):
         ctx.log(f"warning: accepted ratio {acc:.2f} outside the sanity band")
+    chk = None
+    if ctx.tier == "thorough" and info["ok"]:
+        okc, outc = vlib.coqchk("C15")
+        chk = outc.strip().splitlines()[-6:]
+        if not okc:
+            vlib.violation(ctx, {"broken": "coqchk rejected the compiled proofs", "detail": outc[-800:]}, no_input=True)
     samples = []
     for i in (0, n_exh // 2, n_exh + 3, n_exh + 10, total - 1):
         (d, syntax, meta), (c, impl, mstr, r) = items[i], results[i]
@@ -289,7 +295,7 @@ def run(ctx):
         "exhaustive": True, "exhaustive_space": {"cases": n_exh, "what": "widths x variant lists over the value pool x try, see rule"},
         "random_cases": n_rand, "input_distribution": dict(hist), "accepted_ratio": round(acc, 3),
         "disagreements": len(violations), "d12_status": "open" if is_open else "not open (model = repaired pass)",
-        "d12_class_cases_accepted": len(known)})
+        "d12_class_cases_accepted": len(known), **({"coqchk": chk} if chk else {})})
 
 
 def replay(ctx, path):
